@@ -117,6 +117,16 @@ Theorem C09_progress_partial_instance :
 Proof. exact progress_nonchunked_idcap. Qed.
 Print Assumptions C09_progress_partial_instance.
 
+(* ---- a corrupt encoding is reported ------------------------------------------------------------------
+   Not proved in general (see DESIGN-built/C09.md).  The faithful model refutes "the consumer always gets the
+   payload error": a reader woken by a data-less chunk end goes back to wait without looking at the exception
+   that was set meanwhile.  Replayed on the implementation: corpus/C09/rewait_ignores_exception.json
+   (known finding C09-rewait-ignores-exception). *)
+Theorem C09_corrupt_is_error_refuted :
+  exists evs, hung_with_error (fst (toy_run 100 (toy_init 64 true 8190 8190 125 true PChunked 5 1) evs)).
+Proof. exists w_rewait_events. exact rewait_witness. Qed.
+Print Assumptions C09_corrupt_is_error_refuted.
+
 (* ---- client_max_size ------------------------------------------------------------------------------
    BaseRequest.read(): what it returns never exceeds client_max_size, and what it accumulated before
    raising is at most client_max_size plus the last readany() result (itself bounded by C09_bounded). *)
